@@ -396,6 +396,90 @@ pub fn p3_events(t: Transport, minors: Vec<u32>, variant: u8) -> Spec {
     }
 }
 
+/// P3c: sibling proxies. Two proxies of one service on one client hold the same subscription
+/// (all events where the version allows it, else event 1); one of them lets go (drop /
+/// unsubscribe_all / unsubscribe); the other one must keep receiving.
+pub fn p3_siblings(t: Transport, minors: Vec<u32>, how: u8) -> Spec {
+    let m2 = minors.clone();
+    Spec {
+        name: "p3c-siblings".into(),
+        params: serde_json::json!({"transport": format!("{t:?}"), "versions": minors, "how": how}),
+        f1_shape: false,
+        make: Box::new(move || {
+            let (id_tx, id_rx) = oneshot::channel::<ServiceId>();
+            let (ready_tx, mut ready_rx) = mpsc::unbounded::<u8>();
+            let owner = app("owner", move |hs, _| {
+                Box::pin(async move {
+                    let h = hs[0].clone();
+                    drop(hs);
+                    let obj = es(h.create_object(ou(1)).await, "create object")?;
+                    let svc = es(obj.create_service(su(1), ServiceInfo::new(1)).await, "create service")?;
+                    let _ = id_tx.send(svc.id());
+                    let _ = ready_rx.next().await;
+                    es(svc.emit(1, 11u32), "emit 1")?;
+                    es(h.sync_broker().await, "sync")?;
+                    let _ = ready_rx.next().await;
+                    es(svc.emit(1, 111u32), "emit 1b")?;
+                    es(h.sync_broker().await, "sync")?;
+                    let _ = ready_rx.next().await;
+                    drop(svc);
+                    drop(obj);
+                    es(h.sync_broker().await, "sync")?;
+                    Ok(())
+                })
+            });
+            let sub_minor = m2[1 % m2.len()];
+            let sub = app("subscriber", move |hs, _| {
+                Box::pin(async move {
+                    let h = hs[1].clone();
+                    drop(hs);
+                    let sid = id_rx.await.map_err(|_| "owner gone".to_string())?;
+                    let mut p1 = es(h.create_proxy(sid).await, "proxy 1")?;
+                    let mut p2 = es(h.create_proxy(sid).await, "proxy 2")?;
+                    // (can_subscribe_all() speaks for the service; the client's own negotiated version
+                    // must allow it too)
+                    let all = p1.can_subscribe_all() && sub_minor >= 18;
+                    if all {
+                        es(p1.subscribe_all().await, "p1 subscribe all")?;
+                        es(p2.subscribe_all().await, "p2 subscribe all")?;
+                    } else {
+                        es(p1.subscribe(1).await, "p1 subscribe")?;
+                        es(p2.subscribe(1).await, "p2 subscribe")?;
+                    }
+                    let _ = ready_tx.unbounded_send(0);
+                    expect_event(&mut p1, 1, 11).await?;
+                    expect_event(&mut p2, 1, 11).await?;
+                    match how {
+                        0 => drop(p1),
+                        1 => {
+                            if all {
+                                es(p1.unsubscribe_all().await, "p1 unsubscribe all")?;
+                            } else {
+                                es(p1.unsubscribe(1).await, "p1 unsubscribe")?;
+                            }
+                            drop(p1);
+                        }
+                        _ => {
+                            // the first proxy subscribes again individually and then lets go
+                            es(p1.subscribe(1).await, "p1 subscribe 1")?;
+                            drop(p1);
+                        }
+                    }
+                    es(h.sync_broker().await, "sync")?;
+                    let _ = ready_tx.unbounded_send(0);
+                    // the sibling still holds its subscription
+                    expect_event(&mut p2, 1, 111).await?;
+                    let _ = ready_tx.unbounded_send(0);
+                    drop(p2);
+                    es(h.sync_broker().await, "sync")?;
+                    Ok(())
+                })
+            });
+            (cfgs(2, t, &m2), vec![owner, sub])
+        }),
+    }
+}
+
 /// P3b: back-pressure. A subscriber on a (small bounded) transport holds a proxy with `n_sub`
 /// subscribed events and does not get to run while the owner emits a burst; then it lets go of
 /// the proxy in one of three ways (each makes its client task send several messages in a row) and
